@@ -640,7 +640,11 @@ def cli_rule(ctx, rid):
             keys |= {k.value for k in x.value.keys if isinstance(k, ast.Constant)}
         if isinstance(x, ast.Assign) and isinstance(x.targets[0], ast.Subscript) and norm(x.targets[0].value) == "grow_kwargs" and isinstance(x.targets[0].slice, ast.Constant):
             keys.add(x.targets[0].slice.value)
-    badk = [k for k in keys if k not in core.params]
+    keys |= {k.arg for k in c.keywords if k.arg is not None}          # keywords written at the call itself
+    gmf = prog.need_cls(CROP + ".Crop").methods.get("grow_missing")
+    growf = prog.need_cls(CROP + ".Crop").methods.get("grow")
+    accepted = set(core.params) | set(gmf.params if gmf else ()) | set(growf.params if growf else ())
+    badk = [k for k in keys if k not in accepted]
     if badk or not keys:
         rr.bad(ctx.finding(rid, main, main.node, "grow_kwargs key(s) %s are not parameters of combo_runner_core, to which Crop.grow forwards them" % badk, construct="cli-kwargs %s" % badk), "cli kwargs")
     else:
